@@ -232,6 +232,18 @@ func (w *World) CheckLifecycle(out *Outcome, o *Obs) []Violation {
 	for _, h := range sdl.SortedKeys(edges) {
 		back[h] = append(back[h], edges[h]...)
 	}
+	for _, h := range sdl.SortedKeys(o.Points) {
+		if !created[h] {
+			continue
+		}
+		// a by-name request makes the holder depend on the named component even when the
+		// component then turns out not to be assignable (it is created before it is rejected)
+		for _, pt := range w.Types[w.Insts[h].Type].Points {
+			if pt.Sel == sdl.SelName {
+				back[h] = append(back[h], w.ByName[out.Res[h][pt.Field].ReqName]...)
+			}
+		}
+	}
 	for _, h := range sdl.SortedKeys(o.InitLookups) {
 		for _, tid := range sdl.SortedKeys(o.InitLookups[h]) {
 			back[h] = append(back[h], tid)
@@ -379,8 +391,29 @@ func (w *World) CheckOrdering(o *Obs) []Violation {
 		vs = append(vs, v("C12", "runner-order-violates-contract", "", fmt.Sprintf("runners: %s; sequence %v", msg, ids(rs))))
 	}
 	// loaders
+	// (one sequence per initialisation of the configuration: Run, then an optional reload)
 	var ls []participant
-	for _, e := range evs {
+	pass := "first"
+	flush := func() {
+		if msg := CheckContract(ls); msg != "" {
+			vs = append(vs, v("C12", "loader-order-violates-contract", pass, fmt.Sprintf("loaders (%s initialisation): %s; sequence %v", pass, msg, ids(ls))))
+		}
+		seen := map[string]int{}
+		for _, l := range ls {
+			seen[l.ID]++
+		}
+		for _, id := range sdl.SortedKeys(seen) {
+			if seen[id] > 1 {
+				vs = append(vs, v("C12", "loader-invoked-more-than-once", pass, fmt.Sprintf("loader %s was invoked %d times in the %s initialisation", id, seen[id], pass)))
+			}
+		}
+		ls = nil
+	}
+	for _, e := range o.Events {
+		if e.Kind == "reload" {
+			flush()
+			pass = "second"
+		}
 		if e.Kind == "load" {
 			for _, s := range w.P.Sources {
 				if s.ID == e.Subj {
@@ -389,9 +422,7 @@ func (w *World) CheckOrdering(o *Obs) []Violation {
 			}
 		}
 	}
-	if msg := CheckContract(ls); msg != "" {
-		vs = append(vs, v("C12", "loader-order-violates-contract", "", fmt.Sprintf("loaders: %s; sequence %v", msg, ids(ls))))
-	}
+	flush()
 	return vs
 }
 
